@@ -17,7 +17,7 @@ func hookWBuild(m *openfgav1.AuthorizationModel, order []string) (wResult, []str
 func realWStruct(m *openfgav1.AuthorizationModel) (string, string) {
 	var g *graph.WeightedAuthorizationModelGraph
 	var err error
-	if p := safely(func() { g, err = graph.NewWeightedAuthorizationModelGraphBuilder().Build(m) }); p != "" {
+	if p := safely(func() { g, err = wBuilder().Build(m) }); p != "" {
 		return "", "panic:" + p
 	}
 	if err != nil {
